@@ -82,6 +82,79 @@ theorem accept_outcomes (lk : Lookup) (C : VMap) (v : Nat) (data : Bytes) :
         · left; exact ⟨d, by simp [hd, hm]⟩
         · right; exact ⟨"magic", by simp [hd, hm]⟩
 
+/-! ### the whole message handler: acceptance, refusal, query reply -/
+
+/-- the initiator asked for a query: some proposed entry carries the query flag -/
+def proposedQuery (C : VMap) : Bool := C.any fun p => p.2.query
+
+/-- the property on one reply of the responder: the initiator completes only with a proposed
+    version under the three conditions, or — having asked for it — with a query result -/
+def C19_full_on (lk : Lookup) (C : VMap) (msg : SMsg) : Prop :=
+  match clientHandle lk C msg with
+  | .finished v d => v ∈ keys C ∧ ∃ own k data, msg = .accept v data ∧ lookupMap C v = some own ∧
+      lk v = some k ∧ decode k data = some d ∧ d.networkMagic = own.networkMagic
+  | .queryDone _ => proposedQuery C = true
+  | _ => True
+
+/-- Full statement: for every reply a responder could send. -/
+def C19_full : Prop := ∀ (lk : Lookup) (C : VMap) (msg : SMsg), C19_full_on lk C msg
+
+/-- What holds: every reply except a query reply nobody asked for. -/
+theorem C19_partial (lk : Lookup) (C : VMap) (msg : SMsg)
+    (hx : (∃ t, msg = .queryReply t) → proposedQuery C = true) : C19_full_on lk C msg := by
+  unfold C19_full_on
+  cases msg with
+  | accept v data =>
+    simp only [clientHandle]
+    cases h : clientHandleAccept lk C v data with
+    | finished v' d =>
+      obtain ⟨hv, hk, own, k, h1, h2, h3, h4⟩ := finish_only_proposed lk C v data v' d h
+      subst hv
+      exact ⟨hk, own, k, data, rfl, h1, h2, h3, h4⟩
+    | queryDone t =>
+      rcases accept_outcomes lk C v data with ⟨d, hd⟩ | ⟨w, hw⟩ <;> simp_all
+    | refusedErr r => trivial
+    | err w => trivial
+  | refuse r => simp [clientHandle]
+  | queryReply t => simp only [clientHandle]; exact hx ⟨t, rfl⟩
+
+/-- Message decoding in front of the handler only adds failures: what the initiator does with a
+    received message is the handler's outcome, or a decode failure. -/
+theorem receive_refines (lk : Lookup) (C : VMap) (msg : SMsg) :
+    clientReceive lk C msg = clientHandle lk C msg ∨ clientReceive lk C msg = .err "decode" := by
+  unfold clientReceive
+  split
+  · left; rfl
+  · right; rfl
+
+/-- so the property carries over to the receive path, for every message -/
+theorem receive_partial (lk : Lookup) (C : VMap) (msg : SMsg)
+    (hx : (∃ t, msg = .queryReply t) → proposedQuery C = true) :
+    match clientReceive lk C msg with
+    | .finished v _ => v ∈ keys C
+    | .queryDone _ => proposedQuery C = true
+    | _ => True := by
+  rcases receive_refines lk C msg with h | h
+  · rw [h]
+    have := C19_partial lk C msg hx
+    unfold C19_full_on at this
+    cases hc : clientHandle lk C msg <;> simp_all
+  · rw [h]; trivial
+
+/-- **Recorded finding** (class `unsolicited-queryreply`): an initiator that did not ask for a
+    query and is answered `QueryReply {}` completes the handshake — FinishedFunc(0, nil), no
+    error — although it never proposed version 0. (`TestClientQueryReply` in the repository
+    asserts this behaviour, so it is recorded, not repaired.) -/
+theorem C19_witness :
+    ¬ C19_full_on GV.Lib.VersionTable.lk
+        [(32784, genEntry .ntc15 764824073 true false false)] (.queryReply []) := by
+  have hq : proposedQuery [(32784, genEntry .ntc15 764824073 true false false)] = false := by decide
+  unfold C19_full_on
+  simp only [clientHandle, decodeTable, List.filterMap_nil]
+  rw [hq]; simp
+
+theorem C19_full_false : ¬ C19_full := fun h => C19_witness (h _ _ _)
+
 /-- The defect that was repaired, on the regenerated tables: an NtC initiator with the mainnet
     magic that proposed the whole NtC table, answered `AcceptVersion 13 [42,false,0,false]`.
     The old function settles on version 13 with magic 42; the repaired one fails. -/
